@@ -66,6 +66,24 @@ var c08Kinds = []c08Kind{
 	{"av1", func() rtp.Payloader { return &codecs.AV1Payloader{} }, false, false, "av1"},
 }
 
+// c08Toggle flips one exported option of a payloader (which one depends on the call index).
+func c08Toggle(p rtp.Payloader, call int) {
+	switch v := p.(type) {
+	case *codecs.H264Payloader:
+		v.DisableStapA = !v.DisableStapA
+	case *codecs.H265Payloader:
+		if call%2 == 0 {
+			v.AddDONL = !v.AddDONL
+		} else {
+			v.SkipAggregation = !v.SkipAggregation
+		}
+	case *codecs.VP8Payloader:
+		v.EnablePictureID = !v.EnablePictureID
+	case *codecs.VP9Payloader:
+		v.FlexibleMode = !v.FlexibleMode
+	}
+}
+
 // c08Input draws an input for the codec. kind names the construction.
 func c08Input(r *fw.Rand, codec string, mtu int) ([]byte, string) {
 	maxLen := 4*mtu + 8
@@ -209,11 +227,33 @@ func c08Instance(c *fw.Ctx, kind c08Kind, mtu int, inputs [][]byte, inKinds []st
 				mtu = 65535
 			}
 		}
+		if call > 0 && len(inputs) >= 2 && (len(inputs[0])+len(inputs))%3 == 0 {
+			// the option fields are exported: the application flips one between two calls (both twins alike)
+			c08Toggle(a, call)
+			c08Toggle(b, call)
+			c.Count("options_flipped_between_calls", 1)
+		}
+		// now and then the application hands a fragment it got from the previous call straight back in (the very slice):
+		// whatever the payloader remembers about its own outputs, the new fragments must be new memory
+		var feedback []byte
+		if call > 0 && len(returnedA) == call && len(returnedA[call-1]) > 0 && (len(inputs[0])+call)%4 == 0 {
+			feedback = returnedA[call-1][len(returnedA[call-1])-1]
+		}
+		if len(feedback) == 0 {
+			feedback = nil // nil and empty inputs are told apart by some payloaders; an empty fragment fed back proves nothing
+		} else {
+			in = append([]byte(nil), feedback...)
+			inputs[call], inKinds[call] = in, "fragment-of-previous-call"
+			c.Count("calls_fed_with_a_fragment_of_the_previous_call", 1)
+		}
 		// A gets a private copy it may keep forever; B gets one that is overwritten after the call
 		inA := fw.Exact(in)
 		inB := fw.Exact(in)
+		if feedback != nil {
+			inA = feedback
+		}
 		canary := func() bool { return false }
-		if call%2 == 1 {
+		if call%2 == 1 && feedback == nil {
 			// a caller buffer with spare capacity: the bytes beyond len are the caller's too
 			inA, canary = fw.Roomy(in, 24)
 		}
